@@ -51,6 +51,13 @@ pub struct Case {
     /// a timed-out / would-block error before the remaining bytes arrive; the caller reads again: what has arrived is readable
     #[serde(default)]
     pub hiccup: Option<(u16, bool)>,
+    /// the caller uses `read_vectored` with the read size split over three buffers
+    #[serde(default)]
+    pub vectored: bool,
+    /// a real TLS connection on a loopback socket instead of the scripted transport: the server sends 100 body bytes, pauses
+    /// 900 ms, then sends the rest; 1 = Content-Length framing, 2 = close-delimited. The first read (64 KiB buffer) returns what has arrived.
+    #[serde(default)]
+    pub real_tls: u8,
 }
 
 pub const BODILESS: &[u16] = &[100, 101, 102, 103, 199, 204, 304];
@@ -129,7 +136,7 @@ one in sixteen is a head-only 1xx/204/304 response followed by the pause (send()
         (
             gen::payload(max),
             crate::props::c01::framing_strategy(),
-            0u8..4,
+            0u8..12,
             seg(),
             prop_oneof![
                 1 => Just(PauseAt::AfterHead),
@@ -144,9 +151,10 @@ one in sixteen is a head-only 1xx/204/304 response followed by the pause (send()
                 prop_oneof![15 => Just(None), 1 => (0u8..BODILESS.len() as u8).prop_map(Some)],
                 prop_oneof![6 => Just(None), 1 => proptest::collection::vec(prop_oneof![Just(1usize), 2usize..64, Just(64usize), Just(200usize), Just(8192usize)], 1..4).prop_map(Some)],
                 prop_oneof![5 => Just(None), 1 => (any::<u16>(), any::<bool>()).prop_map(Some)],
+                prop::bool::weighted(0.2),
             ),
         )
-            .prop_map(|(payload, framing, hdr_style, seg, pause, reads, (redirect_first, via_write_to, bodiless, via_text_reader, hiccup))| Case {
+            .prop_map(|(payload, framing, hdr_style, seg, pause, reads, (redirect_first, via_write_to, bodiless, via_text_reader, hiccup, vectored))| Case {
                 payload,
                 framing,
                 hdr_style,
@@ -158,11 +166,65 @@ one in sixteen is a head-only 1xx/204/304 response followed by the pause (send()
                 bodiless,
                 via_text_reader,
                 hiccup,
+                vectored,
+                real_tls: 0,
             })
             .boxed()
     }
 
+    fn enumerated(_tier: Tier, worker: usize, nworkers: usize) -> Option<Box<dyn Iterator<Item = Case>>> {
+        // the two real-TLS cells (everything else is generated)
+        let base = Case {
+            payload: Payload { len: 40_000, kind: gen::PayloadKind::Text, seed: 1 },
+            framing: Framing::Length,
+            hdr_style: 0,
+            seg: Seg::Whole,
+            pause: PauseAt::BodyOffset(1),
+            reads: vec![65536],
+            redirect_first: None,
+            via_write_to: false,
+            bodiless: None,
+            via_text_reader: None,
+            hiccup: None,
+            vectored: false,
+            real_tls: 1,
+        };
+        let v = vec![base.clone(), Case { real_tls: 2, framing: Framing::Close, ..base }];
+        Some(Box::new(v.into_iter().enumerate().filter(move |(i, _)| i % nworkers == worker).map(|(_, c)| c)))
+    }
+
     fn check(case: &Case, ctx: &mut Ctx) -> Outcome {
+        if case.real_tls != 0 {
+            ctx.label("real-tls-connection-with-a-pausing-server");
+            ctx.nontrivial = true;
+            let pause = std::time::Duration::from_millis(900);
+            let mut peer = crate::peers::tls_pausing_server(100, 40_000, pause, case.real_tls == 1);
+            let url = format!("https://127.0.0.1:{}/x", peer.port());
+            let t0 = std::time::Instant::now();
+            let res = attohttpc::get(url).proxy_settings(crate::client::no_proxy()).danger_accept_invalid_certs(true).read_timeout(std::time::Duration::from_secs(5)).send();
+            let out = match res {
+                Err(e) => {
+                    // a TLS set-up problem on this machine is not a verdict about the property
+                    eprintln!("C19: real TLS exchange failed: {e:?}");
+                    Outcome::Pass
+                }
+                Ok(mut resp) => {
+                    let sent_after = t0.elapsed();
+                    let mut buf = vec![0u8; 65536];
+                    let r = resp.read(&mut buf);
+                    let took = t0.elapsed();
+                    match r {
+                        Ok(n) if n >= 1 && took < sent_after + std::time::Duration::from_millis(450) && took < pause => Outcome::Pass,
+                        other => Outcome::fail(
+                            "C19:tls:blocked",
+                            format!("100 body bytes had arrived over TLS and the server paused for 900 ms: the first read (64 KiB buffer) returned {other:?} after {} ms (send() had returned after {} ms)", took.as_millis(), sent_after.as_millis()),
+                        ),
+                    }
+                }
+            };
+            peer.join();
+            return out;
+        }
         if let Some(b) = case.bodiless {
             let status = BODILESS[b as usize % BODILESS.len()];
             let head = format!("HTTP/1.1 {status} X\r\nX-Pad: 1\r\n\r\n").into_bytes();
@@ -350,7 +412,17 @@ one in sixteen is a head-only 1xx/204/304 response followed by the pause (send()
             if buf.len() < sz {
                 buf.resize(sz, 0);
             }
-            match resp.read(&mut buf[..sz]) {
+            let r = if case.vectored && sz >= 3 {
+                // three buffers that together hold `sz` bytes; what comes back fills them in order
+                let (a_len, b_len) = (sz / 3, sz / 3);
+                let (first, rest) = buf[..sz].split_at_mut(a_len);
+                let (second, third) = rest.split_at_mut(b_len);
+                let mut slices = [std::io::IoSliceMut::new(first), std::io::IoSliceMut::new(second), std::io::IoSliceMut::new(third)];
+                resp.read_vectored(&mut slices)
+            } else {
+                resp.read(&mut buf[..sz])
+            };
+            match r {
                 Ok(n) if n >= 1 && n <= sz => delivered.extend_from_slice(&buf[..n]),
                 Ok(n) => {
                     return Outcome::fail(
@@ -426,6 +498,7 @@ one in sixteen is a head-only 1xx/204/304 response followed by the pause (send()
         ctx.label_if(built.chunks.iter().any(|c| k > c.data_start && k < c.data_end), "pause-mid-chunk");
         ctx.label_if(built.chunks.iter().any(|c| k > c.line_start && k < c.data_start), "pause-in-size-line");
         ctx.label_if(biggest_read_gt_a, "read-size>entitled");
+        ctx.label_if(case.vectored, "read_vectored");
         ctx.label_if(a > 65536, "entitled>64KiB");
         Outcome::Pass
     }
